@@ -1,5 +1,9 @@
-(* C14 driver.  case line:  <G|S> <8|16|32> <fix|var> <hex bytes>
-   result:  FAIL | OK rest=<n> reenc=<same|diff@i> wf=<0|1> V <value>
+(* C14 driver.  case line:  <G|S> <8|16|32> <fix|var> <hex bytes> [novalue]
+   result:  FAIL | OK rest=<n> reenc=<same|diff@i> wf=<0|1> lim=<0|1> V <value>
+     (lim: does the reader of wincode's default configuration — 4 MiB preallocation size limit,
+      [decode_limited PREALLOC_LIMIT mem_size] — accept the same bytes; `novalue`: V - )
+   case line:  SIZES <8|16|32>   result: SIZES G <n> <n> ... # S <n> <n> ...   ([mem_size] of the element
+      type of every sequence position of the two generated schemas, in encoding order)
    value dump: int = decimal, bool = t/f, bytes = x<hex>, N, S(v), [v,..], (v,..), E<i>(v), O *)
 let int64_of_n (n : n) : int64 =
   let rec go = function
@@ -8,15 +12,19 @@ let int64_of_n (n : n) : int64 =
     | XI p -> Int64.add (Int64.mul 2L (go p)) 1L in
   match n with N0 -> 0L | Npos p -> go p
 let dec_of_n (n : n) : string = Printf.sprintf "%Lu" (int64_of_n n)
+(* one shared N per byte value (a 4 MiB blob would otherwise allocate a fresh binary numeral per byte) *)
+let byte_n = Array.init 256 n_of_int
 let bytes_of_hex (s : string) : n list =
   let k = String.length s / 2 in
-  let rec go i acc = if i < 0 then acc else go (i - 1) (n_of_int (int_of_string ("0x" ^ String.sub s (2 * i) 2)) :: acc) in
+  let hv ch = (match ch with '0'..'9' -> Char.code ch - 48 | 'a'..'f' -> Char.code ch - 87 | 'A'..'F' -> Char.code ch - 55 | _ -> failwith "hex") in
+  let rec go i acc = if i < 0 then acc else go (i - 1) (byte_n.(16 * hv s.[2 * i] + hv s.[2 * i + 1]) :: acc) in
   go (k - 1) []
+let hex2 = Array.init 256 (fun i -> Printf.sprintf "%02x" i)
 let rec dump (b : Buffer.t) (v : value) : unit =
   match v with
   | VInt n -> Buffer.add_string b (dec_of_n n)
   | VBool x -> Buffer.add_char b (if x then 't' else 'f')
-  | VBytes l -> Buffer.add_char b 'x'; List.iter (fun x -> Buffer.add_string b (Printf.sprintf "%02x" (int_of_n x))) l
+  | VBytes l -> Buffer.add_char b 'x'; List.iter (fun x -> Buffer.add_string b hex2.(int_of_n x land 255)) l
   | VNone -> Buffer.add_char b 'N'
   | VSome v' -> Buffer.add_string b "S("; dump b v'; Buffer.add_char b ')'
   | VList l -> Buffer.add_char b '['; dump_list b l; Buffer.add_char b ']'
@@ -33,7 +41,12 @@ let rec first_diff i a b =
 let () =
   iter_lines (fun line ->
     match split_ws line with
+    | ["SIZES"; w] ->
+      let t = (match w with "8" -> St8 | "16" -> St16 | "32" -> St32 | _ -> failwith "width") in
+      let f table = String.concat " " (List.map dec_of_n (elem_sizes table t)) in
+      Printf.sprintf "SIZES G %s # S %s" (f false) (f true)
     | [which; w; enc; hex] | [which; w; enc; hex; _] ->
+      let novalue = (match split_ws line with [_; _; _; _; "novalue"] -> true | _ -> false) in
       let table = (which = "S") in
       let t = (match w with "8" -> St8 | "16" -> St16 | "32" -> St32 | _ -> failwith "width") in
       let c = (match enc with "fix" -> Fix | "var" -> Var | _ -> failwith "enc") in
@@ -45,8 +58,9 @@ let () =
          let nkeep = List.length bs - List.length rest in
          let consumed = List.filteri (fun i _ -> i < nkeep) bs in
          let d = first_diff 0 consumed re in
+         let lim = if run_limited table t c bs then 1 else 0 in
          let b = Buffer.create 4096 in
-         dump b v;
-         Printf.sprintf "OK rest=%d reenc=%s wf=%d V %s" (List.length rest)
-           (if d < 0 then "same" else Printf.sprintf "diff@%d" d) wf (Buffer.contents b))
+         if novalue then Buffer.add_char b '-' else dump b v;
+         Printf.sprintf "OK rest=%d reenc=%s wf=%d lim=%d V %s" (List.length rest)
+           (if d < 0 then "same" else Printf.sprintf "diff@%d" d) wf lim (Buffer.contents b))
     | _ -> "BADCASE")
